@@ -955,6 +955,141 @@ func witnesses(w *core.Writer) {
 	}
 }
 
+// ------------------------------------------------------------------ branch atlas
+// A fixed family of crafted images, at least one per branch of every fix function, so that branch coverage does
+// not depend on the seed or on the number of random images (FixCheck.*_branch says which branch a case takes).
+func atlas(w *core.Writer) {
+	set := hplug.NewSet()
+	set.Action.SetBehaviour(behave)
+	set.Check.SetBehaviour(behave)
+	f := newFixer(set)
+	const R, C, F, N, S = workflow.Running, workflow.Completed, workflow.Failed, workflow.NotStarted, workflow.Stopped
+	ok, bad, open := [2]bool{false, false}, [2]bool{true, false}, [2]bool{false, true}
+	nonce := "atlas"
+	id := 0
+	act := func(st workflow.Status, atts ...[2]bool) *workflow.Action {
+		id++
+		return mkAct(id-1, nonce, st, st != N, st == C || st == F || st == S, atts...)
+	}
+	chk := func(st workflow.Status, as ...*workflow.Action) *workflow.Checks {
+		return mkChk(st, st != N, st == C || st == F, as...)
+	}
+	seq := func(st workflow.Status, as ...*workflow.Action) *workflow.Sequence {
+		return &workflow.Sequence{ID: uuid.Must(uuid.NewV7()), Name: "s", Descr: "s", State: mkState(st, st != N, st == C || st == F || st == S), Actions: as}
+	}
+	blk := func(st workflow.Status, ss ...*workflow.Sequence) *workflow.Block {
+		return &workflow.Block{ID: uuid.Must(uuid.NewV7()), Name: "b", Descr: "b", Concurrency: 1, State: mkState(st, st != N, st == C || st == F || st == S), Sequences: ss}
+	}
+	pln := func(st workflow.Status, bs ...*workflow.Block) *workflow.Plan {
+		return &workflow.Plan{ID: uuid.Must(uuid.NewV7()), Name: "p", Descr: "p", SubmitTime: t0, State: mkState(st, st != N, st == C || st == F || st == S), Blocks: bs}
+	}
+	done := func() *workflow.Sequence { return seq(C, act(C, ok)) }
+	fresh := func() *workflow.Sequence { return seq(N, act(N)) }
+	stopping := func() *workflow.Sequence { return seq(R, act(S), act(R)) }          // fixSeq: Stopped
+	resumable := func() *workflow.Sequence { return seq(R, act(C, ok), act(N)) }     // stays Running, is executed
+	serial := 0
+	put := func(kind, coq, before string, obs any, note string) {
+		serial++
+		w.Put(core.Case{ID: fmt.Sprintf("atlas-%s-%d", kind, serial), Kind: "atlas-" + kind, Coq: coq, Nontrivial: true, Hash: core.Hash("atlas", coq),
+			Input: map[string]any{"before": before}, Observed: obs, Note: note})
+	}
+	// fixAction 0..6
+	for _, a := range []*workflow.Action{act(C, ok), act(R), act(R, open), act(R, ok), act(R, ok, open), act(R, bad), act(R, bad, open, open)} {
+		p := pln(R, blk(R, seq(R, a)))
+		num := repath(p, nonce)
+		b := actTerm(a, num)
+		pan := guarded(func() { verifhooks.FixAction(a) })
+		put("action", fmt.Sprintf("(CAct %s %s)", b, actTerm(a, num)), b, actTerm(a, num), notePanic(pan))
+	}
+	// fixChecks 0, 1
+	for _, c := range []*workflow.Checks{chk(N, act(R)), chk(R, act(C, ok), act(R))} {
+		p := pln(R, blk(R, done()))
+		p.PreChecks = c
+		num := repath(p, nonce)
+		b := chkTerm(c, num)
+		pan := guarded(func() { verifhooks.FixChecks(c) })
+		put("checks", fmt.Sprintf("(CChk %s %s)", b, chkTerm(c, num)), b, chkTerm(c, num), notePanic(pan))
+	}
+	// fixSeq 0, 1, 3, 4, 5, 6
+	for _, sq := range []*workflow.Sequence{done(), stopping(), seq(R, act(C, ok), act(F, bad)), seq(R, act(N), act(R)), seq(R, act(C, ok), act(R, ok)), resumable()} {
+		p := pln(R, blk(R, sq))
+		num := repath(p, nonce)
+		b := seqTerm(sq, num)
+		pan := guarded(func() { verifhooks.FixSeq(sq) })
+		put("seq", fmt.Sprintf("(CSeq %s %s)", b, seqTerm(sq, num)), b, seqTerm(sq, num), notePanic(pan))
+	}
+	// fixBlock 0..7, 15, 16, 17 (and each of them again inside fixPlan, below)
+	blocks := func() []*workflow.Block {
+		b1 := blk(R, resumable())
+		b1.BypassChecks = chk(C, act(C, ok))
+		b2 := blk(R, resumable())
+		b2.PreChecks = chk(F, act(F, bad))
+		b3 := blk(R, resumable())
+		b3.ContChecks = chk(F, act(F, bad))
+		b4 := blk(R, done())
+		b4.PostChecks = chk(F, act(F, bad))
+		return []*workflow.Block{blk(C, done()), b1, b2, b3, b4, blk(R, stopping()), blk(R, fresh()), blk(R, done(), fresh()),
+			blk(R, stopping(), resumable()), blk(R, resumable()), blk(R, done(), resumable())}
+	}
+	for _, b := range blocks() {
+		p := pln(R, b)
+		num := repath(p, nonce)
+		all, _ := actionsOf(p)
+		bt := blkTerm(b, num)
+		s := openSession(nonce, nil, 0)
+		f.store.takeSeqs()
+		pan := guarded(func() { f.states.FixBlock(b) })
+		closeSession(nonce)
+		cts := blockCallsTerm(callsBySeq(p, num, s.calls, f.store.takeSeqs()), 0)
+		put("block", fmt.Sprintf("(CBlk %s %s %s %s)", scriptTerm(all, num, nil), bt, blkTerm(b, num), cts), bt,
+			map[string]any{"after": blkTerm(b, num), "calls": s.calls}, notePanic(pan))
+	}
+	// fixPlan 0..8 and, with a Failed continuous group, 14..18
+	plans := func(contFailed bool) []*workflow.Plan {
+		p1 := pln(R, blk(R, resumable()))
+		p1.BypassChecks = chk(C, act(C, ok))
+		p2 := pln(R, blk(N, fresh()))
+		p2.PreChecks = chk(F, act(F, bad))
+		p3 := pln(R, blk(C, done()))
+		p3.PostChecks = chk(F, act(F, bad))
+		ps := []*workflow.Plan{pln(C, blk(C, done())), p1, p2, p3, pln(R, blk(R, stopping()), blk(R, resumable())), pln(R, blk(C, done()), blk(F, seq(F, act(F, bad)))),
+			pln(R, blk(N, fresh())), pln(R, blk(C, done())), pln(R, blk(R, done(), fresh()))}
+		if contFailed {
+			ps = ps[4:]
+			for _, p := range ps {
+				p.ContChecks = chk(F, act(F, bad))
+			}
+		}
+		return ps
+	}
+	for _, p := range append(plans(false), plans(true)...) {
+		num := repath(p, nonce)
+		before := plnTerm(p, num)
+		coq, obs, note := f.fixPlanCase(p, num, nonce, nil, "")
+		delete(obs, "status_mix_before")
+		put("plan", coq, before, obs, note)
+	}
+	// every fixBlock branch once more as the second block of a Running plan (fixPlan's loop)
+	for _, b := range blocks() {
+		p := pln(R, blk(C, done()), b)
+		num := repath(p, nonce)
+		before := plnTerm(p, num)
+		coq, obs, note := f.fixPlanCase(p, num, nonce, nil, "")
+		delete(obs, "status_mix_before")
+		put("plan", coq, before, obs, note)
+	}
+}
+
+// repath numbers the actions of p and makes every request carry its number (the plugin log reports "a<number>").
+func repath(p *workflow.Plan, nonce string) numbering {
+	num := number(p)
+	all, _ := actionsOf(p)
+	for _, a := range all {
+		a.Req = hplug.Req{Nonce: nonce, Path: fmt.Sprintf("a%d", num[a])}
+	}
+	return num
+}
+
 // ------------------------------------------------------------------ reachable images: real runs (child process)
 
 // snapVault reads the plan back after every Update*: each read is the durable image at that crash point.
@@ -1390,6 +1525,7 @@ func main() {
 	defer w.Close()
 
 	witnesses(w)
+	atlas(w)
 	arbitrary(w, *narb)
 
 	// children: batches of runs; a child that dies is restarted after the run it died in
